@@ -287,6 +287,12 @@ class Module:
             e2 = Untranslatable(f"{self.relpath}: {name}: {e}")
             self.done[name] = e2
             raise e2
+        except RecursionError:
+            raise
+        except Exception as e:  # noqa: BLE001  -- a bug of the translator must not look like a translation
+            e2 = Untranslatable(f"{self.relpath}: {name}: internal translator error {type(e).__name__}: {e}")
+            self.done[name] = e2
+            raise e2
         finally:
             self.in_progress.discard(name)
 
